@@ -396,7 +396,7 @@ func Run(r *ev.Run) {
 				}
 			}
 			if !decodable && g.R.P(1, 2) {
-				c.Cfg.ConsoleSeparator = rng.Pick(g.R, []string{"", " | ", "→", "{", " ", "\t\t", "}{"})
+				c.Cfg.ConsoleSeparator = rng.Pick(g.R, []string{"", " | ", "→", "{", " ", "\t\t", "}{", "%", "%d", " %v ", "%%", "%!", "\\", "\""})
 			}
 			r.Eval(1)
 			r.SetAdd("presence_patterns", fmt.Sprint(pat))
